@@ -6,6 +6,7 @@ pid = sys.argv[1]
 wt = sys.argv[2]
 out = sys.argv[3]
 extra = sys.argv[4] if len(sys.argv) > 4 else ""
+ks = os.environ.get("SEED_KS", "1,2")
 p = [json.loads(l) for l in open(os.path.join(os.path.dirname(__file__), "..", "properties.jsonl")) if json.loads(l)["id"] == pid][0]
 txt = f"""# Task: seed two subtle defects that break one property of rscel
 
@@ -40,7 +41,7 @@ each of which
    (typically 1-15 changed lines), natural-looking code, no comments announcing the
    bug, no special-casing of magic values.{extra}
 
-For each change k in {{1,2}} write into `{out}/k/`:
+For each change k in {{{ks}}} write into `{out}/k/`:
 
 * `patch.diff` - `git diff` of the change against the worktree's HEAD (must apply with
   `git apply` to a clean checkout);
